@@ -141,6 +141,9 @@ type ScramParams struct {
 	Salt        []byte
 	Iter        int
 	NonceSuffix string
+	// Extension: optional extension attributes appended to the server-first message (RFC 5802 section 7: a client
+	// ignores attributes it does not know), e.g. "x=opt"
+	Extension string
 	// TLS is the server side connection state (PLUS variants).
 	TLS *tls.ConnectionState
 }
@@ -242,6 +245,9 @@ func (s *ScramServer) ServerFirst(clientFirst []byte) (string, error) {
 	}
 	s.nonce = s.ClientNonce + s.P.NonceSuffix
 	s.serverFirst = "r=" + s.nonce + ",s=" + b64(s.P.Salt) + ",i=" + strconv.Itoa(s.P.Iter)
+	if s.P.Extension != "" {
+		s.serverFirst += "," + s.P.Extension
+	}
 	return s.serverFirst, nil
 }
 
